@@ -46,8 +46,9 @@ static const char * const ids[] = {
   "alloc.desc", "alloc.stack", "free.desc", "free.stack", "create.init", "create.start",
   "finish.enter", "cb.enter", "cb.leave", "finish.readjoin", "finish.cb.detached",
   "finish.cb.freedesc", "finish.cb.ready2", "join.reap", "detach.reap", "detach.set",
-  "detach.fast", "detach.check", "join.check", "join.cb.set", "yield.enter", "epoch", 0 };
+  "detach.fast", "detach.check", "join.check", "join.cb.set", "yield.enter", "epoch", "probe", 0 };
 #define EPOCH_ID 21
+#define PROBE_ID 22
 enum { ALLOC_DESC, ALLOC_STACK, FREE_DESC, FREE_STACK, CREATE_INIT, CREATE_START, FINISH_ENTER,
        CB_ENTER, CB_LEAVE, FIN_READJOIN, FIN_CB_DET, FIN_CB_FREEDESC, FIN_CB_READY2 };
 
@@ -56,7 +57,7 @@ static ev_t * evlog;
 static size_t nlog, caplog = 600000;
 static volatile int lk;
 static volatile int recording, overflow;
-static volatile long n_selfrel, n_poison_bad, n_canary_bad, n_result_bad, n_fin_done, n_done, n_created, n_joined;
+static volatile long n_probe_bad, n_selfrel, n_poison_bad, n_canary_bad, n_result_bad, n_fin_done, n_done, n_created, n_joined;
 static uintptr_t first_bad_addr;
 
 static void lock(void) { while (__sync_lock_test_and_set(&lk, 1)) { while (lk) ; } }
@@ -197,6 +198,7 @@ static void verify(uintptr_t lo, uintptr_t hi, int id) {
 }
 
 static void * body(void * a);
+static void * tiny_body(void * a) { volatile char buf[64]; buf[0] = 1; (void)buf; return a; }
 
 static void create(spec_t * sp) {
   myth_thread_attr_t at;
@@ -221,6 +223,33 @@ static void join(spec_t * sp) {
   if ((long)res != (MAGIC ^ sp->id)) __sync_fetch_and_add(&n_result_bad, 1);
 }
 
+/* direct probe of the REQUESTED size: the thread asked for sp->size bytes, so it may use
+   [top+16 - size, top+16) (the 16 bytes above th->stack hold the size word).  Touch both ends: write
+   and read back a pattern at the lowest word, check that the frame it runs in is near the top; the low
+   end must not lie in the extent of another live stack.  Logged as a "probe" event:
+   val = requested size, extra = bytes between the probed word and top+16. */
+static void probe(srec_t * s, spec_t * sp, uintptr_t here) {
+  uintptr_t top16 = s->top + 16, lo = (top16 - (uintptr_t)sp->size) & ~(uintptr_t)7;   /* block starts are page aligned */
+  volatile uint64_t * p = (volatile uint64_t *)lo;
+  uint64_t v = pat(sp->id, lo) ^ 0x5555aaaa5555aaaaull;
+  long bad = 0;
+  size_t i;
+  if (lo + 8 + RED <= here) {        /* (a request smaller than the frames in use has no free low end to write to) */
+    *p = v;
+    if (*p != v) bad++;
+  }
+  if (!(here < top16 && top16 - here < 4096)) bad++;          /* high end: where the thread really runs */
+  lock();
+  for (i = 0; i < HS; i++)
+    if (stab[i].start && &stab[i] != s && stab[i].live && lo >= stab[i].start && lo < stab[i].top + 16) bad++;
+  if (bad) n_probe_bad += bad;
+  if (recording && nlog < caplog) {
+    ev_t * e = &evlog[nlog++];
+    e->id = PROBE_ID; e->rank = g_worker_rank; e->obj = myth_self(); e->val = sp->size; e->sp = here; e->extra = top16 - lo;
+  }
+  unlock();
+}
+
 static void * body(void * a) {
   spec_t * sp = a;
   volatile char here;
@@ -228,6 +257,7 @@ static void * body(void * a) {
   int i;
   srec_t * s;
   lock(); s = desc_get_(myth_self()); unlock();
+  if (s && sp->size > 0) probe(s, sp, (uintptr_t)&here);
   if (s) paint(s, (uintptr_t)&here, sp->id, &lo, &hi);
   for (i = 0; i < sp->yields; i++) { myth_yield(); verify(lo, hi, sp->id); }
   if (sp->kids > 0) {
@@ -249,27 +279,38 @@ static void * body(void * a) {
   return (void*)(MAGIC ^ sp->id);
 }
 
+/* the dump may run inside a signal handler of a process whose heap is corrupt: no stdio, no malloc;
+   lines are formatted into a static buffer and written with write(2).  Only one dump per process. */
+static volatile int dumping;
+static char obuf[1 << 16]; static size_t olen;
+static void oflush(void) {
+  size_t off = 0;
+  while (off < olen) { ssize_t k = write(1, obuf + off, olen - off); if (k <= 0) break; off += (size_t)k; }
+  olen = 0;
+}
 static void dump(const char * why) {
   size_t i;
-  printf("H gsz %zu dsz %zu nw %d events %zu\n", (size_t)g_attr.stacksize, sizeof(struct myth_thread),
-         (int)g_attr.n_workers, nlog);
-  for (i = 0; i < nlog; i++)
-    printf("E %d %s %lx %ld %lx %lu\n", evlog[i].rank, ids[evlog[i].id], (unsigned long)evlog[i].obj,
-           evlog[i].val, (unsigned long)evlog[i].sp, (unsigned long)evlog[i].extra);
-  printf("R %s created %ld joined %ld done %ld badresult %ld canary %ld poison %ld selfrel %ld overflow %d firstbad %lx\n",
-         why, n_created, n_joined, n_done, n_result_bad, n_canary_bad, n_poison_bad, n_selfrel, overflow,
-         (unsigned long)first_bad_addr);
+  if (__sync_lock_test_and_set(&dumping, 1)) { for (i = 0; i < 100; i++) usleep(100000); _exit(125); }
   fflush(stdout);
+  olen += snprintf(obuf + olen, sizeof(obuf) - olen, "H gsz %zu dsz %zu nw %d events %zu\n", (size_t)g_attr.stacksize,
+                   sizeof(struct myth_thread), (int)g_attr.n_workers, nlog);
+  for (i = 0; i < nlog; i++) {
+    if (olen > sizeof(obuf) - 256) oflush();
+    olen += snprintf(obuf + olen, sizeof(obuf) - olen, "E %d %s %lx %ld %lx %lu\n", evlog[i].rank, ids[evlog[i].id],
+                     (unsigned long)evlog[i].obj, evlog[i].val, (unsigned long)evlog[i].sp, (unsigned long)evlog[i].extra);
+  }
+  oflush();
+  olen += snprintf(obuf + olen, sizeof(obuf) - olen,
+         "R %s created %ld joined %ld done %ld badresult %ld canary %ld poison %ld selfrel %ld probe %ld overflow %d firstbad %lx\n",
+         why, n_created, n_joined, n_done, n_result_bad, n_canary_bad, n_poison_bad, n_selfrel, n_probe_bad, overflow,
+         (unsigned long)first_bad_addr);
+  oflush();
 }
-
 static void on_signal(int sig) {
-  static volatile int once;
-  if (once++) _exit(128 + sig);
   recording = 0;
   dump(sig == SIGSEGV ? "crash-segv" : sig == SIGBUS ? "crash-bus" : sig == SIGABRT ? "crash-abort" : sig == SIGALRM ? "hang" : "crash");
   _exit(128 + sig);
 }
-
 /* let every thread (detached ones too) get through its finish callback */
 static void quiesce(void) {
   int i;
@@ -344,6 +385,19 @@ int main(int argc, char ** argv) {
       myth_detach(specs[id].th);
     } else if (sscanf(op, "Y%d", &n) == 1) {
       while (n-- > 0) myth_yield();
+    } else if (op[0] == 'O') {
+      /* O<size>: the public setter with a (huge) size, then a creation with that attribute; no stack
+         painting.  Prints what the library did; a crash is reported by the signal handler. */
+      unsigned long sz = strtoul(op + 1, 0, 0);
+      myth_thread_attr_t at; myth_thread_t th = 0; void * res = 0;
+      int rs, rc, rj = -1;
+      myth_thread_attr_init(&at);
+      rs = myth_thread_attr_setstacksize(&at, (size_t)sz);
+      printf("O size %lu set %d\n", sz, rs); fflush(stdout);
+      pending_det[g_worker_rank & 63] = 0;
+      rc = (rs == 0) ? myth_create_ex(&th, &at, tiny_body, (void *)7) : -1;
+      if (rs == 0 && rc == 0) rj = myth_join(th, &res);
+      printf("O size %lu set %d create %d join %d result %ld\n", sz, rs, rc, rj, (long)res); fflush(stdout);
     } else if (op[0] == 'E') {
       start_epoch(op, 0);
     } else { printf("R badop %s\n", op); return 2; }
